@@ -402,3 +402,11 @@ SUBS = [
     Sub("rotate-commute", check_rotate_commute, rot_case(), nontrivial=nontrivial, quick=300, thorough=2000),
     Sub("refuse", check_refuse, refuse_case(), quick=300, thorough=1500),
 ]
+
+
+# objects with a history (reads that may fill caches, in-place writes): observables equal those of a fresh object
+from pbt import aged as _aged  # noqa: E402
+
+SUBS.append(_aged.sub("C05", quick=120))
+ASSUMPTIONS = list(ASSUMPTIONS) + ["aged sub-property: library results are a function of the public primary state "
+                                   "(corners, n, names, units, bc, subregions, array, validity, labels, mapping, unit)"]
